@@ -726,7 +726,7 @@ func appendOfType(v ssa.Value, typeName string) bool {
 		if ia, ok := ref.(*ssa.IndexAddr); ok && ia.Referrers() != nil {
 			for _, r2 := range *ia.Referrers() {
 				if st, ok := r2.(*ssa.Store); ok {
-					if n, isN := st.Val.Type().(*types.Named); isN && n.Obj().Name() == typeName {
+					if n, isN := st.Val.Type().(*types.Named); isN && refNameOf(n.Obj()) == typeName {
 						return true
 					}
 				}
